@@ -411,13 +411,38 @@ fn one(i: usize, seed: u64, acc: &mut Acc) {
     max_items: rng.range(1, 6),
     ..Default::default()
   };
-  let gw = gen_world(&mut rng, &gcfg);
+  let mut gw = gen_world(&mut rng, &gcfg);
+  // one world in eight also imports npm packages (several specifiers per
+  // requirement, statically and dynamically); the closure model declines
+  // such worlds, the model-free self-closure monitor still applies
+  let with_npm = rng.chance(1, 8) && gw.resolver.is_none();
+  if with_npm {
+    let targets: Vec<usize> = gw
+      .modules
+      .iter()
+      .enumerate()
+      .filter(|(_, m)| m.media.is_js_like() && !m.media.is_declaration() && matches!(m.serve, Serve::Module))
+      .map(|(i, _)| i)
+      .collect();
+    if let Some(&mi) = targets.first() {
+      let texts = ["npm:chalk@5", "npm:chalk@5/lib/a.js", "npm:chalk@5/lib/b.js", "npm:left-pad@2.0.0"];
+      for t in texts.iter().take(rng.range(2, 4)) {
+        gw.modules[mi].items.push(Item {
+          form: if rng.chance(1, 5) { Form::DynImport } else { Form::Import },
+          text: t.to_string(),
+          deno_types: None,
+        });
+      }
+      acc.count("worlds_with_npm_imports");
+    }
+  }
   for kind in [GraphKind::All, GraphKind::CodeOnly, GraphKind::TypesOnly] {
     let cfg = BuildCfg {
       kind,
       skip_dynamic_deps: rng.chance(1, 5),
       is_dynamic: rng.chance(1, 8),
       resolver: gw.map_resolver(),
+      npm: with_npm.then(ScriptedNpmResolver::default),
       ..Default::default()
     };
     acc.eval();
